@@ -153,7 +153,7 @@ func (c *RetryClient) publish(ctx context.Context, cli *BaseClient, message *Mes
 			default:
 			}
 			if retryErr, ok := err.(ErrorWithRetry); ok {
-				c.retryQueue = append(c.retryQueue, retryErr.Retry)
+				c.retryQueue = append(c.retryQueue, c.retryWithTimeout(retryErr.Retry))
 				c.newRetryByError = true
 			}
 		}
@@ -192,7 +192,7 @@ func (c *RetryClient) subscribe(ctx context.Context, retry bool, cli *BaseClient
 			default:
 			}
 			if retryErr, ok := err.(ErrorWithRetry); ok {
-				c.retryQueue = append(c.retryQueue, retryErr.Retry)
+				c.retryQueue = append(c.retryQueue, c.retryWithTimeout(retryErr.Retry))
 				c.newRetryByError = true
 			}
 		}
@@ -222,7 +222,7 @@ func (c *RetryClient) unsubscribe(ctx context.Context, cli *BaseClient, topics .
 			default:
 			}
 			if retryErr, ok := err.(ErrorWithRetry); ok {
-				c.retryQueue = append(c.retryQueue, retryErr.Retry)
+				c.retryQueue = append(c.retryQueue, c.retryWithTimeout(retryErr.Retry))
 				c.newRetryByError = true
 			}
 		}
@@ -358,6 +358,21 @@ func (c *RetryClient) SetClient(ctx context.Context, cli *BaseClient) {
 	}()
 }
 
+// retryWithTimeout wraps a raw retry request to apply ResponseTimeout
+// and error handling in the same manner as the first transmission.
+func (c *RetryClient) retryWithTimeout(retry retryFn) retryFn {
+	return func(ctx context.Context, cli *BaseClient) error {
+		ctx2, cancel := c.requestContext(ctx)
+		defer cancel()
+		err := retry(ctx2, cli)
+		if err != nil {
+			c.onError(err)
+			c.newRetryByError = true
+		}
+		return err
+	}
+}
+
 func (c *RetryClient) requestContext(ctx context.Context) (context.Context, func()) {
 	if c.ResponseTimeout == 0 {
 		return ctx, func() {}
@@ -447,7 +462,7 @@ func (c *RetryClient) Retry(ctx context.Context) {
 
 			err := retry(ctx, cli)
 			if retryErr, ok := err.(ErrorWithRetry); ok {
-				c.retryQueue = append(c.retryQueue, retryErr.Retry)
+				c.retryQueue = append(c.retryQueue, c.retryWithTimeout(retryErr.Retry))
 				c.retryQueue = append(c.retryQueue, oldRetryQueue[i+1:]...)
 				break
 			}
